@@ -127,7 +127,7 @@ def _filter_func(case, world):
         return lambda h: np.isin(np.asarray(h['id']), ids)
     if f['kind'] == 'idmod':
         col = 'index_halo' if world.get('lc') else 'id'
-        return lambda h: (np.asarray(h[col]).astype(np.int64) % f['m']) == f['r']
+        return lambda h: (np.asarray(h[col]).astype(np.uint64) % np.uint64(f['m'])) == np.uint64(f['r'])
     if f['kind'] == 'lcids':
         ids = np.array(f['ids'], dtype=np.int64)
         return lambda h: np.isin(np.asarray(h['index_halo']), ids)
